@@ -43,18 +43,18 @@ def bf_streams(suite, kinds):
         out.append(s)
     return out
 
-G = "OxiddModel.Generated.Obligations"
+GEN = "OxiddModel.Generated."
 B = "OxiddModel.Bcdd.Properties"
 Z = "OxiddModel.Zbdd.Properties"
 SPEC = {
  "C01": ([("OxiddModel.Bdd.PropertiesHistory", r"inv_|canonical|history_semantics|swap_|reorder_|set_var_order|addVars"), "OxiddModel.Bdd.Properties", (B, r"canonical|unique|sat_valid"), (Z, r"canonical|unique|sat_valid")], [("c01", ["bdd", "bcdd", "zbdd"])]),
- "C02": ([(G, r"enums_as_modelled"), "OxiddModel.Bdd.Properties", (B, r"not_sem|apply|Bin_sem|op_sem|ite|const_var|eval_sem|cofactors|var_nf"),
+ "C02": ([(GEN + "ObBdd", r"enums_bdd"), (GEN + "ObBcdd", r"enums_bcdd"), (GEN + "ObZbdd", r"enums_zbdd"), "OxiddModel.Bdd.Properties", (B, r"not_sem|apply|Bin_sem|op_sem|ite|const_var|eval_sem|cofactors|var_nf"),
           (Z, r"zbdd_not|zbdd_apply|op_sem|zbdd_ite|zbdd_var|zbdd_cofactors|bool_view")], [("c02", ["bdd", "bcdd", "zbdd"])]),
  "C03": ([("OxiddModel.Bdd.PropertiesHistory", r"inv_|stored_nodes|l2v_bij|nodecount|step_|gc_"), "OxiddModel.Bdd.Properties", "OxiddModel.Bdd.PropertiesC12", (B, r"_nf$|reduce"), (Z, r"_nf|nf'")], [("c03", ["bdd", "bcdd", "zbdd"])]),
- "C04": ([(G, r"dispatch"), "OxiddModel.Bdd.PropertiesC04", (B, r"quant|restrict|applyQuant|dispatch|subst|varset|cube_sem|qsem"), (Z, r"restrict")], [("c04", ["bdd", "bcdd", "zbdd"])]),
+ "C04": ([(GEN + "ObBcdd", r"dispatch"), "OxiddModel.Bdd.PropertiesC04", (B, r"quant|restrict|applyQuant|dispatch|subst|varset|cube_sem|qsem"), (Z, r"restrict")], [("c04", ["bdd", "bcdd", "zbdd"])]),
  "C05": (["OxiddModel.Bdd.PropertiesC05"], [("c05", ["bdd", "bcdd", "zbdd"])]),
- "C06": ([(G, r"memo_"), "OxiddModel.Bdd.PropertiesC06", "OxiddModel.Bcdd.PropertiesC06"], [("c06", ["bdd", "bcdd", "zbdd"])]),
- "C07": (["OxiddModel.Bdd.PropertiesC07"], [("c07", ["bdd", "bcdd", "zbdd"])]),
+ "C06": ([(GEN + "ObBdd", r"memo_"), (GEN + "ObMtbdd", r"memo_"), (GEN + "ObTdd", r"memo_"), "OxiddModel.Bdd.PropertiesC06", "OxiddModel.Bcdd.PropertiesC06"], [("c06", ["bdd", "bcdd", "zbdd"])]),
+ "C07": (["OxiddModel.Bdd.PropertiesC07", ("OxiddModel.Locks.Properties", r"acquisitions_ranked|no_deadlock|no_cyclic_wait|try_never_blocks|holds_buckets|exclusive_|reentrant_|pool_takes")], [("c07", ["bdd", "bcdd", "zbdd"])]),
  "C08": (["OxiddModel.Reorder.Properties"], [("c08", ["bdd", "bcdd", "zbdd"])]),
  "C09": ([(Z, r"family|union|intsec|diff|subset|change|makeNode|bool_view|add_vars|taut|setops|const_nf")], [("c09", ["zbdd"])]),
  "C12": (["OxiddModel.Bdd.PropertiesC12", (B, r"satcount"), (Z, r"satcount")], [("c12", ["bdd", "bcdd", "zbdd"])]),
@@ -92,7 +92,7 @@ for pid, (mods, suites) in SPEC.items():
     print(pid, len(ms), "modules", len(ts), "theorems", [s["name"] + ("+model" if "proto" in s else "") for s in streams], "DISABLED" if not ts else "")
 
 # obligations over the extracted tables for configs written by the area builders
-EXTRA = {"C10": [(G, r"mtbdd|enums_as_modelled")], "C11": [(G, r"tdd|enums_as_modelled")], "C17": [(G, r"constants_as_modelled")]}
+EXTRA = {"C10": [GEN + "ObMtbdd"], "C11": [GEN + "ObTdd"], "C17": [GEN + "ObTbl"], "C05": [GEN + "ObGc"], "C09": [(GEN + "ObZbdd", r"enums_zbdd")]}
 for pid, mods in EXTRA.items():
     p = os.path.join(ROOT, "checks", pid + ".json")
     if not os.path.exists(p):
